@@ -1,6 +1,7 @@
 import CookModel.Num.Scale
 import CookModel.Lemmas.Convert
 import CookModel.Lemmas.Scale
+import CookModel.Lemmas.ConvertExample
 /-
   C08  Scaling multiplies exactly the scalable amounts and nothing else.
 
@@ -207,24 +208,30 @@ theorem C08_servings_is_factor (c : Converter Rat) (r : ScalableRecipe Rat) (n :
   · have h1 : ((n : Rat) / 1) = (n : Rat) := by grind
     simp [recipeScaleToServings, servingsBase, h1]
 
-/-! ## non-vacuity on the shipped converter -/
+/-! ## non-vacuity (on the hand-written example converter `Ex.conv`, independent of units.toml) -/
 
 /-- `@flour{500%g}` ×3 → 1.5 kg: amount 1500 g -/
-example : (scaleIngredient (Converter.bundled Rat) 3
+example : (scaleIngredient Ex.conv 3
     { name := ['f'], alias := none, quantity := some ⟨.linear (.number (.regular 500)), some ['g']⟩,
       note := none, reference := none, relation := ⟨.definition [] true, none⟩, modifiers := .empty }).1.quantity
     = some ⟨.number (.regular (3/2)), some ['k','g']⟩ := by decide +kernel
 
 /-- `@flour{=500%g}` ×3 stays 500 g -/
-example : (scaleIngredient (Converter.bundled Rat) 3
+example : (scaleIngredient Ex.conv 3
     { name := ['f'], alias := none, quantity := some ⟨.fixed (.number (.regular 500)), some ['g']⟩,
       note := none, reference := none, relation := ⟨.definition [] true, none⟩, modifiers := .empty }).1.quantity
     = some ⟨.number (.regular 500), some ['g']⟩ := by decide +kernel
+
+/-- `@milk{1/2%c}` ×3 → 1 1/2 cups as a fraction: 3/2 · 0.2365882365 l -/
+example : (scaleIngredient Ex.conv 3
+    { name := ['m'], alias := none, quantity := some ⟨.linear (.number (.regular (1/2))), some ['c']⟩,
+      note := none, reference := none, relation := ⟨.definition [] true, none⟩, modifiers := .empty }).1.quantity
+    = some ⟨.number (.fraction 1 1 2 0), some ['c']⟩ := by decide +kernel
 
 example : mkScalable true false (.number (.regular (2 : Rat))) = .linear (.number (.regular 2)) := by
   decide +kernel
 example : mkScalable true true (.number (.regular (2 : Rat))) = .fixed (.number (.regular 2)) := by
   decide +kernel
-example : (Converter.bundled Rat).Sound := soundB_sound _ (by decide +kernel)
+example : Ex.conv.Sound := soundB_sound _ (by decide +kernel)
 
 end Cook
